@@ -244,6 +244,121 @@ func verifScripted(b bpv7.Bundle, mtu uint64, script []string, l int) string {
 	return fmt.Sprintf("send %d %s %s", l, strings.Join(script, ","), res)
 }
 
+// verifConc: several concurrent Sends in both directions over one pair of TransferManagers.
+// Logs the interleaved XFER_SEGMENT sequence per direction as seen on the wire (tap), the bundles
+// handed up on each side (in order) and the Send results.
+func verifConc(ab, ba []bpv7.Bundle, mtu uint64) []string {
+	aOut := make(chan msgs.Message)
+	aIn := make(chan msgs.Message)
+	bOut := make(chan msgs.Message)
+	bIn := make(chan msgs.Message)
+	tmA := NewTransferManager(aIn, aOut, mtu)
+	tmB := NewTransferManager(bIn, bOut, mtu)
+	defer func() { _ = tmA.Close(); _ = tmB.Close() }()
+	done := make(chan struct{})
+	defer close(done)
+	var mu sync.Mutex
+	var wireAB, wireBA []string
+	tap := func(from chan msgs.Message, to chan msgs.Message, logp *[]string) {
+		for {
+			select {
+			case <-done:
+				return
+			case m := <-from:
+				if s, ok := m.(*msgs.DataTransmissionMessage); ok {
+					mu.Lock()
+					*logp = append(*logp, fmt.Sprintf("%d:%d:%s", s.TransferId, uint8(s.Flags), verifHex(s.Data)))
+					mu.Unlock()
+				}
+				select {
+				case to <- m:
+				case <-done:
+					return
+				}
+			}
+		}
+	}
+	go tap(aOut, bIn, &wireAB)
+	go tap(bOut, aIn, &wireBA)
+	var gotA, gotB []string
+	collect := func(tm *TransferManager, got *[]string, n int, fin chan struct{}) {
+		bundles, errs := tm.Exchange()
+		for i := 0; i < n; i++ {
+			select {
+			case rb := <-bundles:
+				mu.Lock()
+				*got = append(*got, verifHex(verifEnc(rb)))
+				mu.Unlock()
+			case e := <-errs:
+				mu.Lock()
+				*got = append(*got, "ERR:"+strings.ReplaceAll(e.Error(), " ", "_"))
+				mu.Unlock()
+				close(fin)
+				return
+			case <-time.After(5 * time.Second):
+				close(fin)
+				return
+			}
+		}
+		close(fin)
+	}
+	finA, finB := make(chan struct{}), make(chan struct{})
+	go collect(tmB, &gotB, len(ab), finB)
+	go collect(tmA, &gotA, len(ba), finA)
+	var wg sync.WaitGroup
+	res := make([]string, len(ab)+len(ba))
+	for i, b := range ab {
+		wg.Add(1)
+		go func(i int, b bpv7.Bundle) {
+			defer wg.Done()
+			if err := tmA.Send(b); err != nil {
+				res[i] = "err"
+			} else {
+				res[i] = "ok"
+			}
+		}(i, b)
+	}
+	for i, b := range ba {
+		wg.Add(1)
+		go func(i int, b bpv7.Bundle) {
+			defer wg.Done()
+			if err := tmB.Send(b); err != nil {
+				res[len(ab)+i] = "err"
+			} else {
+				res[len(ab)+i] = "ok"
+			}
+		}(i, b)
+	}
+	wg.Wait()
+	<-finA
+	<-finB
+	mu.Lock()
+	defer mu.Unlock()
+	join := func(l []string) string {
+		if len(l) == 0 {
+			return "-"
+		}
+		return strings.Join(l, ",")
+	}
+	sentHex := func(bs []bpv7.Bundle) string {
+		var l []string
+		for _, b := range bs {
+			l = append(l, verifHex(verifEnc(b)))
+		}
+		return join(l)
+	}
+	return []string{
+		fmt.Sprintf("conc %d %s %s %s %s", mtu, sentHex(ab), join(wireAB), join(gotB), join(res[:len(ab)])),
+		fmt.Sprintf("conc %d %s %s %s %s", mtu, sentHex(ba), join(wireBA), join(gotA), join(res[len(ab):])),
+	}
+}
+
+func verifEnc(b bpv7.Bundle) []byte {
+	var buf bytes.Buffer
+	_ = b.MarshalCbor(&buf)
+	return buf.Bytes()
+}
+
 func TestVerifC11(t *testing.T) {
 	outPath := os.Getenv("VERIF_OUT")
 	if outPath == "" {
@@ -346,6 +461,29 @@ func TestVerifC11(t *testing.T) {
 			for _, m := range []int{1 << 20, enc.Len(), enc.Len() / 2, 65535} {
 				emit(verifXfer(b, uint64(m), 2*time.Second))
 			}
+		}
+	}
+
+	// (2b) concurrent senders in both directions
+	nConc := 6
+	if thorough {
+		nConc = 40
+	}
+	for i := 0; i < nConc; i++ {
+		var ab, ba []bpv7.Bundle
+		for k := 0; k < 1+r.intn(4); k++ {
+			ab = append(ab, verifBundle(1+r.intn(40), r))
+		}
+		for k := 0; k < r.intn(4); k++ {
+			ba = append(ba, verifBundle(1+r.intn(40), r))
+		}
+		l0 := len(verifEnc(ab[0]))
+		m := []int{1 + r.intn(l0+2), l0, 7, l0 / 2}[r.intn(4)]
+		if m < 1 {
+			m = 1
+		}
+		for _, line := range verifConc(ab, ba, uint64(m)) {
+			emit(line)
 		}
 	}
 
